@@ -34,7 +34,7 @@ SHARDS = {"quick": 12, "thorough": 16}
 TIMEOUT = {"quick": 900, "thorough": 3600}
 DECIDING = ["history:call_equals_fresh", "history:config_unchanged", "history:args_unchanged", "immut:args_unchanged", "immut:layout_accepted", "repeat:same_arguments_same_result", "repeat:after_inplace_update_equals_fresh",
             "seed:same_seed_same_result", "seed:different_seed_different_result", "repeat:deterministic",
-            "styles:identical", "styles:all_calls_ran"]
+            "styles:identical", "styles:all_calls_ran", "concurrent:equals_sequential"]
 MUST_REACH = ["long_history:disturbing_call_raised:BAD_SHAPE", "long_history:disturbing_call_returned:BIG", "structure:decoupled", "structure:zero", "size_variant:1", "size_variant:2", "history:mixed_sizes", "history:fresh_table_from_fresh_processes", "styles:compared", "layout:readonly", "layout:strided"]
 
 # ---- (a) histories ---------------------------------------------------------------------------
@@ -190,13 +190,63 @@ def cases(tier, seed):
                 out.append({"kind": "immut", "cls": "immut:structured", "layout": lay, "size": size, "structure": structure, "seed": seed})
     for size in (None, 1, 2, 5):
         out.append({"kind": "verbose", "cls": "verbose", "size": size, "seed": seed})
+    for part in range(4):
+        for rep in range(1 if tier == "quick" else 4):
+            out.append({"kind": "concurrent", "cls": "concurrent", "part": part, "nparts": 4, "seed": seed, "rep": rep})
     out.append({"kind": "seedfun", "cls": "seedfun", "seed": seed})
     out.append({"kind": "styles", "cls": "styles", "seed": seed})
     return out
 
 
 def run_case(spec, ctx, R):
-    {"history": _history, "immut": _immut, "seedfun": _seedfun, "styles": _styles, "verbose": _verbose}[spec["kind"]](spec, ctx, R)
+    {"history": _history, "immut": _immut, "seedfun": _seedfun, "styles": _styles, "verbose": _verbose, "concurrent": _concurrent}[spec["kind"]](spec, ctx, R)
+
+
+def _concurrent(spec, ctx, R):
+    """The DETERMINISTIC entry points (no random numbers: products, norms, embeddings, QR / LU / SVD / Hessenberg / tridiagonal / Schur / eigen
+    routines, triangular solves) called from four threads at once, each thread on its own inputs: every call returns what the same call
+    returns when nothing else is running.  numpy releases the interpreter lock inside LAPACK / BLAS and the routines have long Python loops,
+    so calls do interleave; a routine that parks intermediate data in module-level or class-level storage mixes the data of two callers.
+    (Routines that draw from the global generator are excluded: their stream is shared by design and C14 states them as functions of the
+    global seed, which only makes sense for one caller at a time.)"""
+    import threading
+    ents = [(name, roles, call) for (name, roles, call, seed) in battery.entries()
+            if seed is None and not any(t in name for t in ("power_iteration", "rand", "rsp", "RSP", "Hybrid", "CGNE", "pass_eff", "NewtonSchulz", "QGMRES", "DeepLinear"))]
+    ents = ents[spec["part"]::spec["nparts"]]
+    variants = [battery.make_inputs(size=sz) for sz in (None, 3, 5, 6)]
+    for name, roles, call in ents:
+        seq = []
+        for I in variants:
+            try:
+                with repo.quiet():
+                    seq.append(("ok", battery.result_digest(call(R, *[I[r].copy() for r in roles]))))
+            except Exception as e:
+                seq.append(("raise", type(e).__name__))
+        if all(v[0] == "raise" for v in seq):
+            continue
+        got = [[] for _ in variants]
+        barrier = threading.Barrier(len(variants))
+
+        def worker(t):
+            I = variants[t]
+            barrier.wait()
+            for rep in range(6):
+                try:
+                    got[t].append(("ok", battery.result_digest(call(R, *[I[r].copy() for r in roles]))))
+                except Exception as e:
+                    got[t].append(("raise", type(e).__name__))
+        import io, contextlib
+        with contextlib.redirect_stdout(io.StringIO()):
+            ths = [threading.Thread(target=worker, args=(t,)) for t in range(len(variants))]
+            for th in ths:
+                th.start()
+            for th in ths:
+                th.join()
+        ok = all(all(g == seq[t] for g in got[t]) for t in range(len(variants)))
+        ctx.distinct("concurrent", name)
+        ctx.hit("concurrent:four_threads")
+        ctx.check("concurrent:equals_sequential", ok, site=name,
+                  detail={"threads": len(variants), "calls_per_thread": 6, "mismatching_calls": sum(g != seq[t] for t in range(len(variants)) for g in got[t])})
 
 
 def _verbose(spec, ctx, R):
